@@ -154,6 +154,52 @@ Theorem C19_save_sequence_fresh : forall (z : bool) (f : fav) (rel : Z), lvl z f
 Proof. exact save_sequence_fresh. Qed.
 Print Assumptions C19_save_sequence_fresh.
 
+(* The save over ANY initial content of the user's home directory - every initial disk state of a save: no .fav
+   (new account), no .fav but a .fav4 waiting for its conversion, an existing .fav (older / newer / same mtime, same
+   or different content, well-formed or not), a temporary file left behind by an earlier crash (under another name,
+   or under the very name this save takes: Create truncates it), any other files. save_syscalls rel old f
+   (Model/C19.v) is the system-call list derived the way FavRaw.Save derives it (the temporary name is taken whether or
+   not .fav exists) and is the list run_case op 7 replays prefix by prefix against the directory that the child
+   processes of the harness leave behind. For EVERY tree f with consistent counters and EVERY number n of system calls
+   executed before the process dies:
+   - .fav is exactly as before (absent if it was absent), or - only if the gate lets the save write - exactly the
+     complete new image, which Load accepts and reads as the new tree; never a torn file;
+   - no file other than .fav and the temporary file is touched (.fav4, stale temporary files, anything else);
+   and the complete list leaves the new image (or, gate closed, the old state). Assumption: Base/Fs.v as above. *)
+Theorem C19_save_any_disk : forall (z : bool) (f : fav) (rel : Z) (disk : fs), lvl z f ->
+  exists f1, cleanup f = Ok f1 /\ wf_fav f1 /\
+    (forall n, let disk' := exec disk (firstn n (save_syscalls rel (lookup FN_FAV disk) f)) in
+       (lookup FN_FAV disk' = lookup FN_FAV disk \/
+        (writes rel (lookup FN_FAV disk) = true /\ lookup FN_FAV disk' = Some (spec_file f1) /\
+         load (spec_file f1) = ROk (renumber f1))) /\
+       (forall m, m <> FN_FAV -> m <> FN_TMP -> lookup m disk' = lookup m disk)) /\
+    lookup FN_FAV (exec disk (save_syscalls rel (lookup FN_FAV disk) f)) =
+      (if writes rel (lookup FN_FAV disk) then Some (spec_file f1) else lookup FN_FAV disk).
+Proof. exact save_any_disk. Qed.
+Print Assumptions C19_save_any_disk.
+
+(* hence Load succeeds after a death at any point of such a save whenever it succeeded before it: if .fav was absent or
+   the image of a well-formed tree, then afterwards .fav is absent only if it was absent before, and otherwise loads *)
+Theorem C19_save_any_disk_loads : forall (z : bool) (f : fav) (rel : Z) (disk : fs), lvl z f ->
+  (forall c, lookup FN_FAV disk = Some c -> exists fo, wf_fav fo /\ file_image fo = Ok c) ->
+  forall n, match lookup FN_FAV (exec disk (firstn n (save_syscalls rel (lookup FN_FAV disk) f))) with
+            | None => lookup FN_FAV disk = None
+            | Some c => exists t, load c = ROk t
+            end.
+Proof. exact save_any_disk_loads. Qed.
+Print Assumptions C19_save_any_disk_loads.
+
+(* the temporary file is needed on the FIRST save too ("there is nothing to protect" is wrong): for EVERY tree, writing
+   .fav in place (Create .fav, the same writes, no rename) passes through a directory in which .fav holds only the
+   version word - neither absent nor the complete image - and Load fails on it. A statement about the alternative
+   system-call list, showing that C19_save_any_disk distinguishes the two. *)
+Theorem C19_first_save_needs_tempfile : forall (f : fav) (cs : list chunk), file_chunks f = Ok cs ->
+  let torn := le16 ptt_fav.FAV_VERSION in
+  lookup FN_FAV (exec [] (firstn 2 (inplace_ops (map snd cs)))) = Some torn /\
+  Some torn <> @None (list Z) /\ file_image f <> Ok torn /\ exists e, load torn = RErr e.
+Proof. exact first_save_needs_tempfile. Qed.
+Print Assumptions C19_first_save_needs_tempfile.
+
 (* exactly what the harness runs against ptt/fav (run_case op 1: a script of API calls, then Save into an empty home):
    Save returns the cleaned tree t1 with the FavNum caches filled, t1 = the valid entries of t in order with counters =
    counts on every level; and when no entry lost FAVH_FAV the returned tree is t itself up to the nested FavNum caches *)
